@@ -437,11 +437,27 @@ func runC02(s *kernel.Sim) {
 		}
 		s.SleepUntil(target)
 		if bgYield {
-			for _, t := range s.ParkedTasks() {
-				if !t.Harness {
-					s.FaultFired("operations_interleaved_with_a_gc_pass")
+			// the pass has got somewhere by the time the operations arrive: a few of
+			// its steps run first, so that they meet it past its read of the set too
+			adv := tp.Choose(4)
+			for i := 0; ; i++ {
+				var bg *kernel.Task
+				for _, t := range s.ParkedTasks() {
+					if !t.Harness {
+						bg = t
+						break
+					}
+				}
+				if bg == nil {
 					break
 				}
+				if i == 0 {
+					s.FaultFired("operations_interleaved_with_a_gc_pass")
+				}
+				if i >= adv {
+					break
+				}
+				s.Resume(bg)
 			}
 		}
 
@@ -595,6 +611,54 @@ func runC02(s *kernel.Sim) {
 	}
 	if s.Failed() {
 		return
+	}
+	// closing act (half of the runs with a schedulable GC): everything expires and the
+	// sets are left empty, usually one more transaction comes and goes, then one last
+	// request arrives while the GC pass over the empty set is somewhere in the middle,
+	// and is abandoned - its slot must still come back
+	if bgYield && tp.Chance(1, 2) {
+		bgOn = false
+		drainBG()
+		s.Sleep(E + G + 2*time.Second)
+		if tp.Chance(2, 3) { // one transaction comes and goes since the last pass
+			t0 := newTxn()
+			doReq(t0, false)
+			if t0.admitted && !s.Failed() {
+				endTxn(t0, 0)
+			}
+			if s.Failed() {
+				return
+			}
+		}
+		gt := (s.Now()/G + 1) * G
+		s.SleepUntil(gt - 1)
+		bgOn = true
+		s.SleepUntil(gt)
+		adv := tp.Choose(8)
+		for i := 0; i < adv; i++ {
+			var bg *kernel.Task
+			for _, t := range s.ParkedTasks() {
+				if !t.Harness {
+					bg = t
+					break
+				}
+			}
+			if bg == nil {
+				break
+			}
+			s.Resume(bg)
+		}
+		t := newTxn()
+		doReq(t, false)
+		if t.admitted {
+			t.abandoned = true
+			s.FaultFired("abandon")
+			s.FaultFired("last_request_met_an_idle_gc_pass")
+			s.Event("abandon", t.id)
+		}
+		if s.Failed() {
+			return
+		}
 	}
 	// settle: every open transaction expires, one more GC round passes
 	bgOn = false
